@@ -146,16 +146,18 @@ impl std::fmt::Debug for Tk24 {
     }
 }
 
-/// Drop-tracked element of 1 KiB: arrays of it cross byte-size thresholds (64 KiB at N = 97, 1 MiB at N = 1024)
+/// Drop-tracked element of 256 bytes: arrays of it cross byte-size thresholds (256 KiB at N = 1024)
 /// that arrays of small elements never reach.
+/// (size = 8 * (TKBIG_PAD + 1) bytes; the value pool's enum is as large as its largest array of these)
+pub const TKBIG_PAD: usize = 31;
 pub struct Tk1k {
     inner: Tk,
-    pad: [u64; 127],
+    pad: [u64; TKBIG_PAD],
 }
 impl Tk1k {
-    fn pad_for(p: u64) -> [u64; 127] {
-        let mut a = [p ^ 0x3333; 127];
-        a[126] = p ^ 0x4444;
+    fn pad_for(p: u64) -> [u64; TKBIG_PAD] {
+        let mut a = [p ^ 0x3333; TKBIG_PAD];
+        a[TKBIG_PAD - 1] = p ^ 0x4444;
         a
     }
 }
@@ -168,7 +170,7 @@ impl Elem for Tk1k {
     }
     fn id(&self) -> i64 {
         let p = self.inner.id() as u64;
-        if self.pad[0] == p ^ 0x3333 && self.pad[63] == p ^ 0x3333 && self.pad[126] == p ^ 0x4444 { self.inner.id() } else { -1 }
+        if self.pad[0] == p ^ 0x3333 && self.pad[TKBIG_PAD / 2] == p ^ 0x3333 && self.pad[TKBIG_PAD - 1] == p ^ 0x4444 { self.inner.id() } else { -1 }
     }
 }
 impl Clone for Tk1k {
